@@ -296,6 +296,9 @@ def run(ck):
     # the relay re-broadcasts the frame it received: the queue it hands the frame to first must leave it as it is (R06.5 caller's frame)
     from . import c06
     c06.caller_frame_untouched(ck, agg)
+    # "received once by every listening node of the level, from whichever node it is sent": the queue refuses only true duplicates (R12.3, shared with C12)
+    from . import c12
+    c12.enqueue_rules(ck, agg, net.queue_field(ck.prog))
     agg.flush()
     ck.floor("R04.8", "re-assignment scenarios", n5, 4)
     ck.floor("R14.1", "level scenarios", n1, 15)
